@@ -64,13 +64,19 @@ def main():
     passes = int(sys.argv[3])
     only = None if len(sys.argv) < 5 else int(sys.argv[4])
     results = []
+    # a process may serve all its builds from one Builder object (VERIF_SHARED_BUILDER): the
+    # cases differ in model, prefix, suffix and origin, and none of that may stick
+    builder = None
+    if os.environ.get('VERIF_SHARED_BUILDER'):
+        from dznpy.adv_shell import Builder  # pylint: disable=import-outside-toplevel
+        builder = Builder()
     for pas in range(passes):
         for idx, case in enumerate(cases):
             if only is not None and idx != only:
                 continue
             try:
                 fc = shellbuild.parse_doc(case['doc'])
-                files = shellbuild.build_files(case['cfg'], fc, order_seed)
+                files = shellbuild.build_files(case['cfg'], fc, order_seed, builder=builder)
                 out = {'files': [[n, hashlib.sha256(c.encode('utf-8')).hexdigest(), h,
                                   hashlib.md5(c.encode('utf-8')).hexdigest()]
                                  for n, c, h in files]}
